@@ -23,6 +23,12 @@ var (
 // This function allocates regions starting at the end of the kernel address
 // space. It should only be used during the early stages of kernel initialization.
 func EarlyReserveRegion(size uintptr) (uintptr, *kernel.Error) {
+	// a request larger than the remaining space can never be satisfied;
+	// rejecting it here also prevents the rounding below from wrapping around
+	if size > earlyReserveLastUsed {
+		return 0, errEarlyReserveNoSpace
+	}
+
 	size = (size + (mm.PageSize - 1)) & ^(mm.PageSize - 1)
 
 	// reserving a region of the requested size will cause an underflow
